@@ -252,6 +252,9 @@ func c05one(r *core.Recorder, w *c05world, p *rig.ProxyRig, o *rig.Origin, mode 
 	if bu.HoldS > 0 {
 		time.Sleep(time.Duration(bu.HoldS) * time.Second)
 	}
+	// The hook counts a request when it enters dedupFetch, a few instructions before it joins the flight: give a
+	// request that lost its CPU right there a moment to join before the origin answers.
+	time.Sleep(10 * time.Millisecond)
 	close(res.gate)
 	wg.Wait()
 	if !inflight || !allIn {
@@ -338,6 +341,13 @@ func c05one(r *core.Recorder, w *c05world, p *rig.ProxyRig, o *rig.Origin, mode 
 		if bu.Outcome == "uncacheable" {
 			hi++
 		}
+	}
+	if bu.Outcome == "uncacheable" {
+		// The statement asks for a response of its own for every client, it does not limit the origin requests of an
+		// uncacheable outcome: a request that joins after the flight has ended starts a flight of its own (one more
+		// request per such flight; seen as N+2 under heavy machine load). Only the lower bound is judged.
+		r.Count("uncacheable_bursts_origin_requests_above_n_plus_1", map[bool]int64{true: 1, false: 0}[n > hi])
+		hi = n
 	}
 	if n < lo || n > hi {
 		r.Violation("C05", fmt.Sprintf("C05:origin-fetch-count:%s:%s:%s%s%s", bu.State, bu.Outcome, bu.Perturb, map[bool]string{true: ":after-" + bu.History, false: ""}[bu.History != ""], map[bool]string{true: ":slow-origin", false: ""}[bu.HoldS > 0]), fmt.Sprintf("%d overlapping identical GETs (%s, %s, %s) caused %d origin requests; expected %d..%d", bu.N, bu.State, bu.Outcome, bu.Perturb, n, lo, hi), cs, wit)
@@ -500,7 +510,7 @@ func init() {
 		ID:    "C05",
 		Level: "exploration",
 		Rule: "bursts of N in {2,3,8(,32)} identical GETs on a key in state {cold, fresh, stale answered 304, stale answered 200} with outcome {cacheable, no-store}, perturbation {none, one client (leader or follower) hangs up before the origin answers, hangs up after the first body byte, reads 1 KiB per 8 ms, entry deleted in the follower hand-over window} on both transports and backends (race build): every state x perturbation x leader/follower combination once plus seeded random bursts. " +
-			"Overlap is established by the dedup-enter hook count and an origin gate before the origin is released; bursts where that could not be established are not judged. Oracles: origin request count (1 / 1 conditional / 0; N..N+1 when uncacheable), every non-perturbing client gets 200 with the complete correct version. Non-trivial = distinct burst shape with confirmed overlap.",
+			"Overlap is established by the dedup-enter hook count and an origin gate before the origin is released; bursts where that could not be established are not judged. Oracles: origin request count (1 / 1 conditional / 0; at least N (N-1 after a hang-up) when uncacheable), every non-perturbing client gets 200 with the complete correct version. Non-trivial = distinct burst shape with confirmed overlap.",
 		Assumptions: []string{"a departing client's fetch may be repeated once (count tolerance +1 on disconnect bursts)", "after the hand-over deletion followers may fetch for themselves"},
 		Plan:        c05Plan,
 		Run:         c05Run,
